@@ -540,6 +540,20 @@ def do_single_panel(ctx, rng, obj, kind, info):
     if ax is None:
         ctx.count("panels_not_judged_no_axes_returned")
         return
+    if own_ax is None and rng.random() < 0.35:
+        # a batch script collects the figures first and looks at / saves them afterwards: another site is plotted with the
+        # same options before the first figure is judged - it must still show the object it was made from
+        try:
+            other = copy.deepcopy(twin)
+            keep = np.flatnonzero(np.asarray(hvsrs_of(other, kind)[0].valid_window_boolean_mask, bool))
+            if keep.size >= 3:
+                hvsrs_of(other, kind)[0].valid_window_boolean_mask[keep[0]] = False
+                hvsrs_of(other, kind)[0].valid_peak_boolean_mask[keep[0]] = False
+            pp.plot_single_panel_hvsr_curves(other, **{k: v for k, v in kw.items() if k != "ax"})
+            ctx.count("figures_judged_after_a_later_call_of_the_same_function")
+            info = dict(info, judged_after_a_later_plot_call=True)
+        except Exception:
+            ctx.count("later_plot_call_raised(not judged)")
     judge_panel(ctx, ax, twin, kind, dmc, dfn, o, info, "plot_single_panel_hvsr_curves", "single")
     ctx.state(["single", kind, dmc, dfn, sorted(k for k, v in o.items() if v), own_ax is not None])
 
